@@ -165,7 +165,7 @@ def build(u):
             r is Ok ==> final(k).audit == old(k).audit.remove(source_port),  // @C07.remove_audit.removes_exactly_this_port
             r is Err ==> final(k).audit == old(k).audit,
             // while the BPF object is loaded and the map has the key, the record IS removed (Err only if the object is absent or the kernel call fails)
-            old(k).loaded && old(k).audit.contains_key(source_port) ==> r is Ok && !final(k).audit.contains_key(source_port),  // @C07.remove_audit.succeeds_on_present_record
+            old(k).loaded && old(k).audit.contains_key(source_port) ==> r is Ok && !final(k).audit.contains_key(source_port),  // @C07+C01.remove_audit.succeeds_on_present_record
 """)
 
 
